@@ -163,22 +163,20 @@ Definition mop3 (f : Z -> Z -> Z) (w : world) (t : nat) (o2 o3 : operand) : opti
   | None => None
   | Some (w1, j) => mmap3_loop f (lfuel w t) w1 t j
   end.
-(* Equals: s1 absent -> false; values differ -> false *)
+(* Equals (HEAD, after fc1915b): an absent receiver entry counts as 0; the
+   loop returns false at the first visit whose values differ *)
 Fixpoint meq_loop (e2 : Z) (fuel : nat) (w : world) (t : nat) (j : mj3) : option (world * bool) :=
   if mj3_ok w j then
     match fuel with
     | O => None
     | S fu =>
-        match ms1 j with
-        | None => Some (w, false)
-        | Some l =>
-            if close e2 (hget (hp w) l) (jval (ms2 j)) then
-              match mj3_next w t j with
-              | None => None
-              | Some (w', j') => meq_loop e2 fu w' t j'
-              end
-            else Some (w, false)
-        end
+        let x := match ms1 j with Some l => hget (hp w) l | None => 0 end in
+        if close e2 x (jval (ms2 j)) then
+          match mj3_next w t j with
+          | None => None
+          | Some (w', j') => meq_loop e2 fu w' t j'
+          end
+        else Some (w, false)
     end
   else Some (w, true).
 
@@ -510,9 +508,14 @@ Definition step4 (y : ty) (w : w4) (o : mop4) : w4 * (Z * list Z) :=
                   | None => panic w2
                   | Some (w3, lb) =>
                       if same_loc lr lb then panic w3 else
-                      match mvisits (sw (b3 w3)) (mop w3 a) with
+                      (* HEAD (after c117908): for it := r.Iterator() { it.Get().Reset() } *)
+                      match own_map (fun _ _ => 0) (sw (b3 w3)) t with
                       | None => (w, (K_FUEL, []))
-                      | Some (s1, vis) => liftm w3 (mdot_loop s1 t vis (mop w3 b) m1 m2 m)
+                      | Some s0 =>
+                          match mvisits s0 (mop w3 a) with
+                          | None => (w, (K_FUEL, []))
+                          | Some (s1, vis) => liftm w3 (mdot_loop s1 t vis (mop w3 b) m1 m2 m)
+                          end
                       end
                   end
               end
